@@ -63,10 +63,21 @@ func checkC02(r *harness.Run) harness.Coverage {
 		}
 	}
 	st.add(conform(r, piped, chainDocs, conformOpts{}))
+	// pumped families: a projection construct repeated k times, nested, in a row or as siblings, in ONE expression
+	kmax := 1100
+	if r.Thorough() {
+		kmax = 5000
+	}
+	ks := pumpKs(kmax)
+	pumped := append(pumpExprs(pumpProj, ks), seqExprs(pumpProjSeq, ks)...)
+	pumpDocs := univ.Js(`{"a":[[1,[2]],[3],null,{"b":4,"c":5}],"b":{"x":{"y":1}}}`, `{"a":[{"b":1,"c":{"c":2}},{"b":null},{"b":[0]}]}`, `{"a":{"x":[1],"y":{"z":2}}}`, `[[1,2],[3,[4]]]`, `{"a":[]}`, `null`)
+	st.add(conform(r, pumped, pumpDocs, conformOpts{}))
+	r.Note("pumped_expressions", len(pumped))
+	r.Note("pumped_sizes", ks)
 	r.Note("piped_projection_pairs", len(piped))
 	r.Note("postfix_chains", len(chains))
 	r.Note("postfix_chain_weight", chainW)
-	finishConform(r, st, nGen+len(chains)+len(piped), len(docs))
+	finishConform(r, st, nGen+len(chains)+len(piped)+len(pumped), len(docs))
 	sampleExprs(r, exprs, docs)
 	return harness.Coverage{Exhaustive: true, Bounds: map[string]interface{}{"expression_weight": maxW, "documents": len(docs)}, Outcomes: distinctOutcomes(st)}
 }
